@@ -118,8 +118,10 @@ type symBuf struct {
 type bufEvent struct {
 	off  Lin
 	n    Lin
-	kind string // "u32" "u16" "byte" "bytes"
+	kind string // "u32" "u16" "byte" "bytes" "loop"
 	val  SV
+	body []bufEvent // kind == "loop": the events of one symbolic iteration (offsets relative to its start)
+	key  string
 }
 
 type cell struct {
@@ -184,6 +186,22 @@ type sx struct {
 	facts     []loopFact
 	bind      map[string]int64
 	retInLoop bool // the last Return executed was inside the loop being summarised
+	loopTouch []map[*symBuf]bufMark // per summarised loop: buffers appended to during the body pass
+}
+
+type bufMark struct {
+	events int
+	length Lin
+}
+
+func (s *sx) touch(b *symBuf) {
+	if len(s.loopTouch) == 0 || b == nil {
+		return
+	}
+	m := s.loopTouch[len(s.loopTouch)-1]
+	if _, ok := m[b]; !ok {
+		m[b] = bufMark{events: len(b.events), length: b.length}
+	}
 }
 
 type readEvent struct {
@@ -973,10 +991,13 @@ func (s *sx) summarise(f *frame, li *loopInfo, prev *ssa.BasicBlock) (*ssa.Basic
 	var bodyRet []SV
 	bodyReturned := false
 	logStart := len(s.rlog)
+	s.loopTouch = append(s.loopTouch, map[*symBuf]bufMark{})
 	func() {
 		defer func() { s.inLoop-- }()
 		bodyRet, bodyReturned = s.runFrom(f, h, nil, li)
 	}()
+	touched := s.loopTouch[len(s.loopTouch)-1]
+	s.loopTouch = s.loopTouch[:len(s.loopTouch)-1]
 	body := s.stream
 	s.stream = saved
 	lpos := s.p.Pos(iff.Pos())
@@ -1109,6 +1130,24 @@ func (s *sx) summarise(f *frame, li *loopInfo, prev *ssa.BasicBlock) (*ssa.Basic
 		}
 		s.stream = append(s.stream, segment{n: sum(n), kind: "loop", body: body, key: key})
 	}
+	// buffers built outside the loop and appended to inside it: one iteration's stores become a
+	// repeated group
+	for buf, mark := range touched {
+		if buf.fixed {
+			continue // stores at computed offsets into a pre-sized buffer are kept as they are
+		}
+		iter := append([]bufEvent{}, buf.events[mark.events:]...)
+		var n Lin
+		for i := range iter {
+			iter[i].off = iter[i].off.sub(mark.length)
+			n = n.add(iter[i].n)
+		}
+		buf.events = append(buf.events[:mark.events:mark.events], bufEvent{off: mark.length, n: sum(n), kind: "loop", body: iter, key: key})
+		buf.length = mark.length.add(sum(n))
+		if len(s.loopTouch) > 0 {
+			s.touch(buf)
+		}
+	}
 	// continue at the exit: phis of the exit block take the header's values
 	// run the header once more "after the loop" so that values defined in it are current
 	for _, in := range h.Instrs {
@@ -1161,7 +1200,25 @@ func (s *sx) emitBytes(b SV, pos string) {
 		if gap.C > 0 {
 			s.emit(gap, "zeros", SV{}, pos)
 		}
-		s.emit(ev.n, ev.kind, ev.val, pos)
+		switch {
+		case ev.kind == "bytes" && ev.val.K == kBytes && ev.val.Buf != nil && ev.val.Buf != b.Buf:
+			// a writer-built buffer stored inside another one: expand it in place
+			s.emitBytes(ev.val, pos)
+		case ev.kind == "loop":
+			var n1 Lin
+			for _, be := range ev.body {
+				n1 = n1.add(be.n)
+			}
+			tmp := &symBuf{id: -1, length: n1, fixed: true, events: ev.body}
+			saved := s.stream
+			s.stream = nil
+			s.emitBytes(SV{K: kBytes, Buf: tmp}, pos)
+			bodySegs := s.stream
+			s.stream = saved
+			s.stream = append(s.stream, segment{n: ev.n, kind: "loop", body: bodySegs, key: ev.key, pos: pos})
+		default:
+			s.emit(ev.n, ev.kind, ev.val, pos)
+		}
 		cur = ev.off.add(ev.n)
 	}
 	tail := end.sub(cur)
@@ -1180,6 +1237,7 @@ func (s *sx) bufStore(dst SV, n Lin, kind string, val SV) {
 	if dst.Buf == nil {
 		return // store into memory that is not an output buffer we track
 	}
+	s.touch(dst.Buf)
 	dst.Buf.events = append(dst.Buf.events, bufEvent{off: dst.Off, n: n, kind: kind, val: val})
 }
 
@@ -1210,7 +1268,7 @@ func (p *Program) globalInit() map[string]SV {
 		}()
 		prefix := "global:" + pk.Types.Path() + "."
 		for k, v := range s.heap {
-			if strings.HasPrefix(k, prefix) && (v.K == kInt && v.L.isConst() || v.K == kBool && v.Str != "input" || v.K == kStr) {
+			if strings.HasPrefix(k, prefix) && (v.K == kInt && v.L.isConst() || v.K == kBool && v.Str != "input" || v.K == kStr || (v.K == kBytes && v.Buf != nil && v.Buf.fixed)) {
 				m[k] = v
 			}
 		}
